@@ -6,11 +6,14 @@ CFGS = {
     "quick": [("c01-a", dict(MaxStmts=4, MaxRows=2, MaxFlush=1), None),
               # flush, then every clean page leaves the cache, then more statements (a page changed but not marked dirty shows here)
               ("c01-e", dict(MaxStmts=5, MaxRows=2, MaxFlush=1, MaxEvict=1, Tables='{"t1"}', Vals="{1}"), 15000),
-              ("c01-b", dict(MaxStmts=5, MaxRows=3, MaxFlush=0, Tables='{"t1"}', Vals="{1}"), None)],
+              ("c01-b", dict(MaxStmts=5, MaxRows=3, MaxFlush=0, Tables='{"t1"}', Vals="{1}"), None),
+              # rows with a NULL column (value 9) and rows at the 400-byte limit (value 8) between ordinary ones
+              ("c01-n", dict(MaxStmts=5, MaxRows=1, MaxFlush=1, Tables='{"t1"}', Vals="{1, 8, 9}", Wheres="{0, 1}"), 12000)],
     "thorough": [("c01-a", dict(MaxStmts=5, MaxRows=2, MaxFlush=1), 60000),
                  ("c01-e", dict(MaxStmts=5, MaxRows=3, MaxFlush=1, MaxEvict=1, Tables='{"t1"}', Vals="{1, 2}"), 60000),
                  ("c01-b", dict(MaxStmts=7, MaxRows=3, MaxFlush=1, Tables='{"t1"}', Vals="{1}"), 40000),
-                 ("c01-c", dict(MaxStmts=6, MaxRows=3, MaxFlush=0, Tables='{"t1"}', Vals="{1, 2}"), 40000)],
+                 ("c01-c", dict(MaxStmts=6, MaxRows=3, MaxFlush=0, Tables='{"t1"}', Vals="{1, 2}"), 40000),
+                 ("c01-n", dict(MaxStmts=6, MaxRows=2, MaxFlush=1, Tables='{"t1"}', Vals="{1, 8, 9}", Wheres="{0, 1, 8}"), 60000)],
 }
 
 
